@@ -303,12 +303,25 @@ pub fn kenc_draws(t: &Templates, seed: u64, scn: &Value) -> Value {
     let kseed = ju64_or(scn, "kseed", 1);
     let k = crate::stream::keyset(seed, kseed, ju64_or(scn, "rseed", 1));
     let plain = pbytes(ju64_or(scn, "pseed", 1), 0, ju64_or(scn, "plen", 10));
+    // the plaintext source may deliver short reads (the chunking, hence the nonces, follows them)
+    let reads: Vec<usize> = jarr(scn, "reads").iter().map(|x| x.as_u64().unwrap() as usize).collect();
+    struct Chunked<'a> { d: &'a [u8], reads: Vec<usize>, i: usize }
+    impl<'a> std::io::Read for Chunked<'a> {
+        fn read(&mut self, buf: &mut [u8]) -> std::io::Result<usize> {
+            let want = if self.i < self.reads.len() { self.reads[self.i] } else { buf.len() };
+            self.i += 1;
+            let n = std::cmp::min(std::cmp::min(want, buf.len()), self.d.len());
+            buf[..n].copy_from_slice(&self.d[..n]);
+            self.d = &self.d[n..];
+            Ok(n)
+        }
+    }
     let r = catch_unwind(AssertUnwindSafe(|| {
         let mut out = Vec::new();
         let sk = PrivateKey::try_from(&k.s_priv[..]).unwrap();
         let spk = PublicKey::try_from(&k.s_pub[..]).unwrap();
         let rpk = PublicKey::try_from(&k.r_pub[..]).unwrap();
-        let mut p = &plain[..];
+        let mut p = Chunked { d: &plain[..], reads: reads.clone(), i: 0 };
         key_encrypt(&mut p, &mut out, &sk, &spk, &rpk, None, None, None, AsymFileFormat::V1).map(|_| out)
     }));
     match r {
